@@ -83,14 +83,20 @@ def _unescape_tla(s):
     return s.replace('\\"', '"').replace('\\\\', '\\')
 
 
-def tlc(wd, module, cfg, *, workers=None, simulate=None, depth=None, timeout=600, extra=(), coverage=False,
-        deadlock=False, jvm=(), dfs=False, quiet=False, emit_to=None, max_emit=None):
-    """Run TLC on spec/<module>.tla with spec/<cfg> in a scratch copy of the spec directory.
-    simulate: dict(num=N) -> -simulate num=N ; depth -> -depth D.
-    Lines printed by the spec as <<"VECTOR"|"BEHAVIOUR", json>> are collected (or streamed to emit_to)."""
+def spec_dir(wd):
+    """scratch copy of /verif/spec (TLC litters its working directory)"""
     sd = os.path.join(wd.path, "spec")
     if not os.path.isdir(sd):
         shutil.copytree(SPEC, sd)
+    return sd
+
+
+def tlc(wd, module, cfg, *, workers=None, simulate=None, depth=None, timeout=600, extra=(), coverage=False,
+        deadlock=False, jvm=(), dfs=False, quiet=False, emit_to=None, max_emit=None, dump_trace=None):
+    """Run TLC on spec/<module>.tla with spec/<cfg> in a scratch copy of the spec directory.
+    simulate: dict(num=N) -> -simulate num=N ; depth -> -depth D.
+    Lines printed by the spec as <<"VECTOR"|"BEHAVIOUR", json>> are collected (or streamed to emit_to)."""
+    sd = spec_dir(wd)
     meta = tempfile.mkdtemp(prefix="meta-", dir=wd.path)
     cmd = ["java", "-XX:+UseParallelGC", "-Xss64m", "-Xmx%dg" % int(os.environ.get("VERIF_TLC_HEAP_G", "12"))]
     if dfs:
@@ -109,6 +115,8 @@ def tlc(wd, module, cfg, *, workers=None, simulate=None, depth=None, timeout=600
         cmd += ["-workers", str(workers or "auto")]
     if coverage:
         cmd += ["-coverage", "1"]
+    if dump_trace:
+        cmd += ["-dumpTrace", "json", dump_trace]
     cmd += list(extra)
     cmd.append(module)
     r = TLCResult()
